@@ -171,3 +171,49 @@ Qed.
 
 Lemma centred_extent l : l <> [] -> minx (map (shift (centre l)) l) == - maxx (map (shift (centre l)) l).
 Proof. intro N. destruct (shift_extent l (centre l) N) as [A B]. rewrite A, B. unfold centre. field. Qed.
+
+(* ---------------- boundary stripping ------------------------------------------------------------------------------- *)
+(* every given vertex that does not lie on the face is kept - whatever its neighbours are (a single peak between face points,
+   two grooves side by side touching the face in between) - and nothing is invented *)
+Lemma In_combine_l {A B} (l : list A) : forall (l' : list B) x, length l = length l' -> In x l -> exists y, In (x, y) (combine l l').
+Proof.
+  induction l as [|a l IH]; intros [|b l'] x Hl Hx; cbn in *; try contradiction; try discriminate.
+  destruct Hx as [Hx|Hx].
+  - subst a. exists b. left. reflexivity.
+  - destruct (IH l' x (eq_add_S _ _ Hl) Hx) as [y Hy]. exists y. right. exact Hy.
+Qed.
+Lemma length_roll_r {A} (d : A) (l : list A) : length (roll_r d l) = length l.
+Proof.
+  destruct l as [|a l]; [reflexivity|]. unfold roll_r. cbn [length].
+  assert (H : forall (x : A) (m : list A), length (removelast (x :: m)) = length m).
+  { intros x m. revert x. induction m as [|y m IH]; intros x; [reflexivity|]. cbn [removelast] in *. cbn [length]. rewrite IH. reflexivity. }
+  rewrite H. reflexivity.
+Qed.
+Lemma length_roll_l {A} (l : list A) : length (roll_l l) = length l.
+Proof. destruct l as [|a l]; [reflexivity|]. unfold roll_l. rewrite app_length. cbn [length]. rewrite Nat.add_comm. reflexivity. Qed.
+
+Theorem strip_keeps_every_vertex_off_the_face (pts : list (Q * Q)) (p : Q * Q) :
+  In p pts -> close0 (snd p) = false -> In p (strip pts).
+Proof.
+  intros Hin Hoff. unfold strip, strip_with.
+  set (ys := map snd pts).
+  assert (L : length pts = length (combine (roll_r 0 ys) (roll_l ys))).
+  { rewrite combine_length, length_roll_r, length_roll_l. unfold ys. rewrite map_length, Nat.min_id. reflexivity. }
+  destruct (In_combine_l pts _ p L Hin) as [y Hy].
+  apply in_map_iff. exists (p, y). split; [reflexivity|].
+  apply filter_In. split; [exact Hy|]. cbn [fst snd]. rewrite Hoff. reflexivity.
+Qed.
+Theorem strip_invents_nothing (own : bool) (pts : list (Q * Q)) (p : Q * Q) : In p (strip_with own pts) -> In p pts.
+Proof.
+  unfold strip_with. intros H. apply in_map_iff in H. destruct H as [[q y] [E H]]. cbn [fst] in E. subst q.
+  apply filter_In in H. destruct H as [H _]. apply in_combine_l in H. exact H.
+Qed.
+(* repaired defect: the pinned strip (own height not looked at) dropped a peak standing between two face points *)
+Lemma strip_pinned_drops_a_peak :
+  exists pts p, In p pts /\ close0 (snd p) = false /\ ~ In p (strip_pinned pts) /\ In p (strip pts).
+Proof.
+  exists [(-4, 0); (-3, 1); (-2, 1); (-1, 0); (0, 1); (1, 0); (2, 1); (3, 1); (4, 0)], (0, 1).
+  split; [do 4 right; left; reflexivity|]. split; [reflexivity|]. split.
+  - vm_compute. intros H. repeat (destruct H as [H|H]; [discriminate H|]). exact H.
+  - vm_compute. do 4 right. left. reflexivity.
+Qed.
